@@ -125,3 +125,144 @@ def method_calls(fn: ast.AST, name: str) -> List[ast.Call]:
 def params(fn: ast.FunctionDef) -> List[str]:
     a = fn.args
     return [x.arg for x in a.posonlyargs + a.args + a.kwonlyargs]
+
+
+IMMEDIATE_CONSUMERS = {"sorted", "sort", "map", "filter", "max", "min", "any", "all", "sum", "reduce", "apply", "applymap", "next"}
+
+
+def late_bound_closures(fn: ast.AST) -> List[tuple]:
+    """Closures (lambda / nested def) created inside a loop that read a variable the loop rebinds, and that escape the iteration
+    (passed on or stored, not consumed on the spot).  Python closures capture variables, not values: after the loop every such closure
+    sees the value of the *last* iteration.  Returns (closure node, loop node, sorted captured names)."""
+    out = []
+    for lp in ast.walk(fn):
+        if not isinstance(lp, (ast.For, ast.While)):
+            continue
+        rebound: Set[str] = set()
+        if isinstance(lp, ast.For):
+            rebound |= {x.id for x in ast.walk(lp.target) if isinstance(x, ast.Name)}
+        for st in lp.body:
+            for x in ast.walk(st):
+                if isinstance(x, ast.Name) and isinstance(x.ctx, ast.Store):
+                    rebound.add(x.id)
+        parents = {}
+        for st in lp.body:
+            for p in ast.walk(st):
+                for c in ast.iter_child_nodes(p):
+                    parents[id(c)] = p
+        for st in lp.body:
+            for c in ast.walk(st):
+                if not isinstance(c, (ast.Lambda, ast.FunctionDef)):
+                    continue
+                a = c.args
+                own = {x.arg for x in a.posonlyargs + a.args + a.kwonlyargs}
+                if a.vararg:
+                    own.add(a.vararg.arg)
+                if a.kwarg:
+                    own.add(a.kwarg.arg)
+                body = [c.body] if isinstance(c, ast.Lambda) else c.body
+                own |= {x.id for b in body for x in ast.walk(b) if isinstance(x, ast.Name) and isinstance(x.ctx, ast.Store)}
+                free = {x.id for b in body for x in ast.walk(b) if isinstance(x, ast.Name) and isinstance(x.ctx, ast.Load)} - own
+                cap = sorted(free & rebound)
+                if not cap:
+                    continue
+                if isinstance(c, ast.Lambda):
+                    par = parents.get(id(c))
+                    if isinstance(par, ast.keyword):
+                        par = parents.get(id(par))
+                    if isinstance(par, ast.Call):
+                        nm = par.func.attr if isinstance(par.func, ast.Attribute) else (par.func.id if isinstance(par.func, ast.Name) else "")
+                        if par.func is c or nm in IMMEDIATE_CONSUMERS:
+                            continue
+                out.append((c, lp, cap))
+    return out
+
+
+def closure_rule(idx, res, rule: str, targets) -> int:
+    """Shared by C07 and C09: a setting applied through a closure created in the loop over the settings must bind the *value*."""
+    n = 0
+    for rel, qual in targets:
+        fi = idx.func(rel, qual)
+        n += 1
+        found = late_bound_closures(fi.node)
+        c, lp, cap = found[0] if found else (None, None, [])
+        res.check(rule, "%s: no closure over a loop variable escapes the iteration" % qual, not found, fi.loc(c) if c is not None else fi.loc(), fi.qual,
+                  ast.unparse(c)[:80] if c is not None else "",
+                  "%s creates `%s` inside a loop and hands it on; the closure captures the variable %s, not its value, so once the loop has "
+                  "finished every such closure yields the value of the last iteration - with two or more settings all of them take the last value"
+                  % (qual, ast.unparse(c)[:60] if c is not None else "", "/".join(cap)), key="%s/%s/late-bound-%s" % (rule, qual, "+".join(cap)))
+    return n
+
+
+def stale_loop_reads(fn: ast.AST, qual: str, loop: ast.For) -> List[tuple]:
+    """Reads, inside one iteration of *loop*, of a local that the loop body assigns but that has not been assigned yet in *this*
+    iteration on some path: the value read is the one a previous iteration (another scenario) left behind.  Accumulators (locals
+    whose in-loop assignments read themselves, augmented assignments) are exempt.  Returns (variable, reading node, witness)."""
+    from .cfg import Flow, build_cfg
+    cfg = build_cfg(fn, qual)
+    loopnode = next((n for n in cfg.nodes if n.kind == "iter" and n.ast is loop), None)
+    if loopnode is None:
+        return []
+    comp_bound: Set[int] = set()
+    for b in loop.body:
+        for c in ast.walk(b):
+            if isinstance(c, (ast.ListComp, ast.SetComp, ast.DictComp, ast.GeneratorExp, ast.Lambda, ast.FunctionDef)):
+                for x in ast.walk(c):
+                    comp_bound.add(id(x))
+    assigned: Set[str] = set()
+    accum: Set[str] = set()
+    for b in loop.body:
+        for st in ast.walk(b):
+            if id(st) in comp_bound:
+                continue
+            if isinstance(st, ast.AugAssign) and isinstance(st.target, ast.Name):
+                accum.add(st.target.id)
+            if isinstance(st, ast.Assign):
+                tn = {x.id for t in st.targets for x in ast.walk(t) if isinstance(x, ast.Name) and isinstance(x.ctx, ast.Store)}
+                rn = {x.id for x in ast.walk(st.value) if isinstance(x, ast.Name)}
+                accum |= tn & rn
+            if isinstance(st, ast.Name) and isinstance(st.ctx, ast.Store):
+                assigned.add(st.id)
+            if isinstance(st, ast.ExceptHandler) and st.name:
+                accum.add(st.name)          # bound on entry to the handler, on every path into it
+    own_targets = {x.id for x in ast.walk(loop.target) if isinstance(x, ast.Name)}
+    out = []
+    for var in sorted(assigned - accum - own_targets):
+        hits = []
+
+        def rw(node, label):
+            a = node.ast
+            if a is None or node.kind == "def":
+                return False, False
+            if node.kind == "iter":
+                reads = any(isinstance(x, ast.Name) and x.id == var for x in ast.walk(a.iter))
+                stores = label == "loop" and any(isinstance(x, ast.Name) and x.id == var for x in ast.walk(a.target))
+                return reads, stores
+            if node.kind == "with":
+                reads = any(isinstance(x, ast.Name) and x.id == var and isinstance(x.ctx, ast.Load) for i in a.items for x in ast.walk(i.context_expr))
+                stores = any(isinstance(x, ast.Name) and x.id == var for i in a.items if i.optional_vars is not None for x in ast.walk(i.optional_vars))
+                return reads, stores
+            if node.kind == "handler":
+                return False, getattr(a, "name", None) == var
+            if node.kind in ("stmt", "test"):
+                reads = any(isinstance(x, ast.Name) and x.id == var and isinstance(x.ctx, ast.Load) and id(x) not in comp_bound for x in ast.walk(a))
+                stores = any(isinstance(x, ast.Name) and x.id == var and isinstance(x.ctx, ast.Store) and id(x) not in comp_bound for x in ast.walk(a))
+                return reads, stores
+            return False, False
+
+        def tr(node, fact, label):
+            if node is loopnode:
+                return ["stale"] if label == "loop" else ["out"]
+            reads, stores = rw(node, label)
+            if fact == "stale" and reads:
+                hits.append(node)
+            if stores and label != "exc":
+                return ["fresh"]
+            return [fact]
+        flow = Flow(cfg, ["out"], tr)
+        seen = set()
+        for nd in hits:
+            if nd.id not in seen:
+                seen.add(nd.id)
+                out.append((var, nd, flow.witness(nd.id, "stale")))
+    return out
